@@ -308,7 +308,7 @@ class SimplicialComplex(Hypergraph):
         except TypeError:
             raise XGIError("The simplex cannot be cast to a frozenset.")
 
-        if self.has_simplex(members):
+        if not members or self.has_simplex(members):
             return
 
         if idx in self._edge.keys():  # check that uid is not present yet
